@@ -15,7 +15,7 @@ import shutil
 from cbimon import cli
 
 PROP = "C16"
-RULE = ("code base = 2..14 files in <=3 directories whose contents are drawn from a pool of <=6 byte strings (empty, "
+RULE = ("code base = 2..14 (sometimes 22..60) files in <=3 directories whose contents are drawn from a pool of <=6 byte strings (empty, "
         "differing in last byte / length / trailing newline / one byte in the middle of 70 kB), plus excluded twins, "
         "symlinked twins, hard links, non-source twins. Non-trivial: >=1 duplicate class of size >=2 or a "
         "near-duplicate pair; distinct by (file->content id, links, excludes).")
@@ -36,16 +36,18 @@ def bounds(tier):
 
 def required_cells(tier):
     return ["class-size>=3", "classes>=2", "weak-digest-collision-different-content", "near-duplicate", "excluded-twin",
-            "symlinked-twin", "hard-link", "empty-files", "no-duplicates", "non-source-twin", "cli", "same-size-same-mtime-different-content", "link-enumerated-before-target"]
+            "symlinked-twin", "hard-link", "empty-files", "no-duplicates", "non-source-twin", "cli", "same-size-same-mtime-different-content", "link-enumerated-before-target",
+            "class-size>20", "cli:class-size>20"]
 
 
-def gen_case(rng):
+def gen_case(rng, big=False):
+    """big: 22..60 files over 1..2 contents (a vendored header copied many times)."""
     ndirs = rng.randint(0, 3)
     dirs = [""] + [f"d{i}" for i in range(ndirs)] + (["d0/sub"] if ndirs and rng.random() < 0.5 else [])
-    npool = rng.randint(1, 6)
+    npool = rng.randint(1, 6) if not big else rng.randint(1, 2)
     pool = rng.sample(range(len(POOL)), npool)
     files = {}
-    for i in range(rng.randint(2, 14)):
+    for i in range(rng.randint(2, 14) if not big else rng.randint(22, 60)):
         d = rng.choice(dirs)
         name = f"f{i}{rng.choice(EXTS)}"
         files[os.path.join(d, name)] = rng.choice(pool)
@@ -122,6 +124,8 @@ def cells_of(case, classes, by, root):
     cells = set()
     if any(len(c) >= 3 for c in classes):
         cells.add("class-size>=3")
+    if any(len(c) > 20 for c in classes):
+        cells.add("class-size>20")
     if len(classes) >= 2:
         cells.add("classes>=2")
     if not classes:
@@ -222,6 +226,8 @@ def check_case(ctx, case, root, cls, do_cli=False):
         rc, out, err = cli.run("codebasin", ["-R", "duplicates", "analysis.toml"], real_root)
         groups = {frozenset(g) for g in cli.parse_duplicates(out)}
         cells.add("cli")
+        if any(len(c) > 20 for c in classes):
+            cells.add("cli:class-size>20")
         if rc != 0 or groups != classes or (not classes and "No duplicates found." not in out):
             problems.append({"mode": "cli", "rc": rc, "expected": sorted(map(sorted, classes)),
                              "observed": sorted(map(sorted, groups)), "stderr": err[-300:]})
@@ -245,7 +251,8 @@ def run_shard(ctx):
     rng = ctx.rng("cases")
     root = os.path.join(ctx.scratch, "cb")
     for i in range(b["cases"]):
-        case = gen_case(rng)
+        # every 3rd command-line case and one case in 50 elsewhere holds a class of more than 20 files
+        case = gen_case(rng, big=(i % 3 == 1 if i < b["cli_cases"] else i % 50 == 7))
         if ctx.mine(i):
             check_case(ctx, case, root, "random", do_cli=(i < b["cli_cases"]))
     shutil.rmtree(root, ignore_errors=True)
